@@ -1027,7 +1027,7 @@ QUICK_MC = ["SSEMC_frame.cfg", "SSEMC_reorg.cfg", "SSEMC_mixed.cfg", "SSEMC_life
             "SSEMC_split.cfg", "SSEMC_contract.cfg", "SSEMC_contract_reorg.cfg", "SSEMC_live.cfg", "SSEMC_live_ascoded.cfg"]
 THOROUGH_MC = ["SSEMC_frame_thorough.cfg", "SSEMC_reorg_thorough.cfg", "SSEMC_mixed_thorough.cfg", "SSEMC_life_thorough.cfg",
                "SSEMC_gossip_thorough.cfg", "SSEMC_gossip_either.cfg", "SSEMC_split.cfg", "SSEMC_contract_thorough.cfg", "SSEMC_contract_reorg.cfg",
-               "SSEMC_live.cfg", "SSEMC_live_ascoded.cfg"]
+               "SSEMC_live_thorough.cfg", "SSEMC_live_ascoded.cfg"]
 GENS = ["SSEGen.cfg", "SSEGen_life.cfg", "SSEGen_reorg.cfg"]
 
 
